@@ -125,6 +125,10 @@ def handle (line : String) : String :=
       "OK\t" ++ toString (reach fuel v) ++ "\t" ++ " ".intercalate ((visitTrace fuel v).map Cls.name) ++ "\t" ++
         toString (showLines fuel 0 v).length ++ "\t" ++ toString w.1.length ++ "\t" ++ toString w.2.length
     | _ => "NOPARSE"
+  | ["repr", file, text] =>
+    match (parseText Generated.lexCfg 100000 text file).1 with
+    | .ast v => "OK\t" ++ escape (reprVal v)
+    | _ => "NOPARSE"
   | op :: _ => "BADOP " ++ op
   | [] => "BADOP"
 
